@@ -201,6 +201,120 @@ def stftAxesGen (pinned : Bool) (len : Nat) (t0 step w h : Rat) : Except AErr Sp
 def stftAxes := stftAxesGen false
 def stftAxesPinned := stftAxesGen true
 
+/-! ### what the code itself computes before / after it calls the libraries
+
+The functions below are the *plans* `load_clip`, `load_recording`, `create_time_range` /
+`create_range_dim`, `resample` and `compute_spectrogram` hand to soundfile, numpy, scipy and
+xarray.  The check traces the real functions symbolically (library calls replaced by recorders)
+and proves, on every run and for all rational inputs, that the traced decision tree equals these
+definitions (Tie 1b); `Proofs/C15.lean` proves that the model above is the composition of the
+plans with the library contracts (`readFrames`, `lattice`, `stftTimes`, …). -/
+
+/-- length of `np.arange(start, stop, step)`: `⌈(stop − start)/step⌉`, none if that is negative -/
+def arangeLen (start stop step : Rat) : Nat := ((stop - start) / step).ceil.toNat
+
+/-- number of coordinates `create_range_dim(start, stop, step)` keeps: the `arange`, minus its last
+    point when there is one and it is `≥ stop − step/2` -/
+def rangeCount (start stop step : Rat) : Nat :=
+  let n := arangeLen start stop step
+  if 0 < n ∧ start + ((n : Rat) - 1) * step ≥ stop - step / 2 then n - 1 else n
+
+/-- `create_range_dim` as (first coordinate, spacing, number of coordinates, advertised `step`) -/
+structure RangePlan where
+  start : Rat
+  step : Rat
+  count : Nat
+  adv : Rat
+  deriving DecidableEq, Repr
+
+def RangePlan.toTuple (p : RangePlan) : Rat × Rat × Rat × Rat := (p.start, p.step, (p.count : Rat), p.adv)
+
+def rangePlan (start stop step : Rat) : RangePlan := ⟨start, step, rangeCount start stop step, step⟩
+
+/-- `create_time_range(start, stop, samplerate = sr)`: `step = 1/sr` -/
+def timeRangePlan (start stop sr : Rat) : RangePlan := rangePlan start stop (1 / sr)
+
+/-- what `load_clip` asks of soundfile (`offset`, `samples`) and the time axis it builds -/
+structure ClipPlan where
+  offset : Int
+  samples : Int
+  axis : RangePlan
+  deriving DecidableEq, Repr
+
+def ClipPlan.toTuple (p : ClipPlan) : Rat × Rat × Rat × Rat × Rat × Rat :=
+  ((p.offset : Rat), (p.samples : Rat), p.axis.start, p.axis.step, (p.axis.count : Rat), p.axis.adv)
+
+/-- `load_clip` for a recording of samplerate `sr` and a clip `[s, e]` -/
+def clipPlan (sr s e : Rat) : ClipPlan :=
+  let off : Int := (s * sr).floor
+  let cnt : Int := ((e - s) * sr).floor
+  let start : Rat := (off : Rat) / sr
+  ⟨off, cnt, timeRangePlan start (start + (cnt : Rat) / sr) sr⟩
+
+/-- the libraries' part of `load_clip`: soundfile's seek + zero-filled read, numpy's `arange`
+    lattice, xarray's length check -/
+def loadClipOfPlan (file : List Frame) (ch : Nat) (p : ClipPlan) : Except AErr TimeArray :=
+  if p.offset < 0 ∨ (file.length : Int) < p.offset then .error .seek
+  else
+    let data := readFrames file ch p.offset.toNat p.samples.toNat
+    let times := lattice p.axis.start p.axis.step p.axis.count
+    if times.length ≠ data.length then .error .shape
+    else .ok ⟨data, times, p.axis.adv⟩
+
+/-- `load_recording`: the whole file (`offset = 0`, `samples = None`) on
+    `create_time_range(0, duration, samplerate)` -/
+def recordingPlan (sr d : Rat) : RangePlan := timeRangePlan 0 d sr
+
+def loadRecordingOfPlan (file : List Frame) (p : RangePlan) : Except AErr TimeArray :=
+  let times := lattice p.start p.step p.count
+  if times.length ≠ file.length then .error .shape
+  else .ok ⟨file, times, p.adv⟩
+
+/-- `resample`: the number of output samples asked of scipy and the advertised step -/
+def resamplePlan (n step target : Rat) : Int × Rat := (truncZ (n * (target * step)), 1 / target)
+
+def resamplePlanTuple (n step target : Rat) : Rat × Rat :=
+  (((resamplePlan n step target).1 : Rat), (resamplePlan n step target).2)
+
+/-- scipy's part of `resample`: `t[0] + (t[1] − t[0])·(n/num)·k`, `k < num` -/
+def resampleOfPlan (n : Nat) (t0 t1 : Rat) (p : Int × Rat) : Except AErr Axis :=
+  if n < 2 then .error .index
+  else if p.1 ≤ 0 then .error .zerodiv
+  else .ok ⟨(List.range p.1.toNat).map fun (k : Nat) => t0 + (t1 - t0) * ((n : Rat) / (p.1 : Rat)) * (k : Rat), p.2⟩
+
+/-- what `compute_spectrogram` asks of scipy (`fs`, `nperseg`, `noverlap`) and what it writes on
+    the axes (advertised frequency step, offset added to scipy's times, advertised time step) -/
+structure StftPlan where
+  fs : Rat
+  nperseg : Int
+  noverlap : Int
+  freqAdv : Rat
+  shift : Rat
+  timeAdv : Rat
+  deriving DecidableEq, Repr
+
+def StftPlan.toTuple (p : StftPlan) : Rat × Rat × Rat × Rat × Rat × Rat :=
+  (p.fs, (p.nperseg : Rat), (p.noverlap : Rat), p.freqAdv, p.shift, p.timeAdv)
+
+def stftPlan (step w h t0 : Rat) : StftPlan :=
+  let fs : Rat := 1 / step
+  let nperseg : Int := truncZ (w * fs)
+  let noverlap : Int := truncZ ((w - h) * fs)
+  ⟨fs, nperseg, noverlap, fs / (nperseg : Rat), t0, ((nperseg : Rat) - (noverlap : Rat)) / fs⟩
+
+/-- scipy's part of `compute_spectrogram` (`boundary="zeros"`, `padded=True`, one-sided) -/
+def stftOfPlan (len : Nat) (p : StftPlan) : Except AErr SpecAxes :=
+  if len = 0 then .error .value
+  else if p.nperseg < 1 then .error .value
+  else
+    let nps := min p.nperseg (len : Int)
+    if p.noverlap ≥ nps then .error .value
+    else
+      .ok ⟨p.nperseg, p.noverlap,
+           ⟨(List.range (stftCount len nps p.noverlap)).map fun (k : Nat) =>
+              (k : Rat) * ((nps - p.noverlap : Int) : Rat) / p.fs + p.shift, p.timeAdv⟩,
+           ⟨(List.range (nps / 2 + 1).toNat).map fun (k : Nat) => (k : Rat) * p.fs / (nps : Rat), p.freqAdv⟩⟩
+
 /-! ### the executable statement of "the axis tells the truth" (monitor) -/
 
 def increasing : List Rat → Bool
